@@ -323,6 +323,33 @@ def trace_mode_cases():
     return uniq, n
 
 
+def pooling_tag_cases():
+    """two cells that share their postsynaptic population but are registered with DIFFERENT postsynaptic time constants
+    (cell-by-cell override): their postsynaptic trace monitors must not be pooled and each decays with its own constant;
+    with equal settings they are pooled"""
+    from . import c15 as _c15
+
+    fails = []
+    for tc_b, pooled in ((20.0, True), (5.0, False)):
+        lay = _c15.layer()
+        tr = STDP(1e-2, -5e-3, 20.0, 15.0)
+        tr.register_cell("a", lay.cells.c1.n)
+        tr.register_cell("b", lay.cells.c2.n, tc_post=tc_b)
+        ma, mb = tr.get_monitor("a", "trace_post"), tr.get_monitor("b", "trace_post")
+        inp = dict(tc_post_a=20.0, tc_post_b=tc_b)
+        if (ma is mb) != pooled:
+            fails.append({"what": "C08/pooling_tags/pooled_iff_same_settings", "input": inp, "expected": pooled, "actual": ma is mb})
+            continue
+        if not pooled:
+            with torch.no_grad():
+                for t in range(6):
+                    lay({"c1": (torch.ones(1, 3) * (1.0 if t < 2 else 0.0),), "c2": (torch.ones(1, 3) * (1.0 if t < 2 else 0.0),)})
+            da, db = float(mb.reducer.decay), float(ma.reducer.decay)
+            if abs(float(ma.reducer.time_constant) - 20.0) > 1e-9 or abs(float(mb.reducer.time_constant) - tc_b) > 1e-9:
+                fails.append({"what": "C08/pooling_tags/each_cell_keeps_its_own_time_constant", "input": inp, "expected": [20.0, tc_b], "actual": [float(ma.reducer.time_constant), float(mb.reducer.time_constant)]})
+    return fails, 2
+
+
 def sweep_c08(tier, seed):
     failures, cases = [], 0
     rnd = random.Random(seed)
@@ -389,6 +416,9 @@ def sweep_c08(tier, seed):
     fm, nm = trace_mode_cases()
     failures.extend(fm)
     cases += nm
+    ft, nt = pooling_tag_cases()
+    failures.extend(ft)
+    cases += nt
     return failures, cases
 
 
